@@ -8,8 +8,8 @@
  * the representation additionally keeps them ordered by old location (flag `sorted`), which is what a binary
  * search needs.
  *
- * Included AFTER the real resize/extent.c (struct ext2_extent_entry is private to that file).  Macros, so that
- * they can be used inside loop invariants.
+ * Macros only (usable inside loop invariants and in the named anchors of resize/extent.c); a run is anything with the
+ * fields old_loc, new_loc, size (struct ext2_extent_entry is private to resize/extent.c).
  */
 #ifndef RESIZE_EXTENT_SPEC_H
 #define RESIZE_EXTENT_SPEC_H
@@ -18,9 +18,16 @@
 #define XSPEC_COVERS(e, x)	((x) >= (e).old_loc && (x) < (e).old_loc + (e).size)
 /* image of x under run e (meaningful when XSPEC_COVERS) */
 #define XSPEC_IMAGE(e, x)	((e).new_loc + ((x) - (e).old_loc))
-/* run a lies completely in front of run b (ordered and disjoint); a.old + a.size does not wrap for block / inode numbers */
-#define XSPEC_BEFORE(a, b)	((a).old_loc + (a).size <= (b).old_loc && (a).old_loc + (a).size >= (a).old_loc)
-/* a run is well formed: not empty, and it lies inside the 64-bit location space on both sides (no wrap) */
-#define XSPEC_WF(e)		((e).size >= 1 && (e).old_loc + (e).size > (e).old_loc && (e).new_loc + (e).size > (e).new_loc)
+/* run a lies completely in front of run b (ordered and disjoint; for well-formed runs) */
+#define XSPEC_BEFORE(a, b)	((a).old_loc + (a).size <= (b).old_loc)
+/*
+ * Locations are block numbers (clusters) or inode numbers.  ext4 block numbers have 48 bits (ee_start_hi:ee_start_lo,
+ * bg_*_hi:bg_*_lo with 64bit; s_blocks_count is checked against that by ext2fs_open), inode numbers 32.
+ */
+#define XSPEC_LOC_LIMIT		(1ULL << 48)
+#define XSPEC_LOC_OK(x)		((x) < XSPEC_LOC_LIMIT)
+/* a run is well formed: not empty, and it lies inside the location space on both sides */
+#define XSPEC_WF(e)		((e).size >= 1 && (e).size <= XSPEC_LOC_LIMIT && XSPEC_LOC_OK((e).old_loc) && XSPEC_LOC_OK((e).new_loc) && \
+				 (e).old_loc + (e).size <= XSPEC_LOC_LIMIT && (e).new_loc + (e).size <= XSPEC_LOC_LIMIT)
 
 #endif
